@@ -2,9 +2,12 @@
 from contracts import py_grid as PG
 from contracts import py_access as PA
 
+from contracts import py_bz as BZ
+
 
 def build(run):
     PG.gridpoints_spglib_call(run)
     PG.shift2boolean_contract(run)
     PA.init_mesh_args(run)
     PG.meshbase_gridpoints_call(run)
+    BZ.brillouin_zone(run)
